@@ -104,7 +104,7 @@ def _is_pure(e, allow_calls=True):
                 continue
             if not allow_calls or nm not in PURE_CALLS:
                 # attribute calls that are known to be pure accessors
-                if isinstance(n.func, ast.Attribute) and n.func.attr in ('get', 'keys', 'values', 'items', 'split', 'strip', 'startswith', 'endswith', 'index', 'finfo') and allow_calls:
+                if isinstance(n.func, ast.Attribute) and n.func.attr in ('get', 'keys', 'values', 'items', 'split', 'strip', 'startswith', 'endswith', 'index', 'finfo', 'reshape', 'ravel', 'flatten', 'transpose', 'astype', 'partition', 'lstrip', 'rstrip') and allow_calls:
                     continue
                 return False
         if isinstance(n, (ast.Lambda, ast.Yield, ast.YieldFrom, ast.Await, ast.NamedExpr)):
@@ -137,7 +137,7 @@ def inline_new_temps(func, ref_locals, local_names):
     changed = True
     while changed:
         changed = False
-        names = local_names(func) - set(ref_locals)
+        names = {x for x in local_names(func) - set(ref_locals) if not x.startswith(('_xt', '_ret_tmp'))}
         par = parents_of(func)
         for t in sorted(names):
             stores = [n for n in ast.walk(func) if isinstance(n, ast.Name) and n.id == t and isinstance(n.ctx, (ast.Store, ast.Del))]
@@ -190,6 +190,14 @@ def inline_new_temps(func, ref_locals, local_names):
                         if isinstance(y, (ast.Subscript, ast.Attribute)) and isinstance(getattr(y, 'ctx', None), ast.Store) and ast.unparse(y.value) in roots:
                             unsafe = True
                 if isinstance(n, ast.Call) and isinstance(n.func, ast.Attribute) and n.func.attr in MUTATORS and ast.unparse(n.func.value) in roots:
+                    unsafe = True
+            # the local itself must not be mutated (it may name a fresh container that is filled afterwards)
+            for n in region:
+                if isinstance(n, ast.Call) and isinstance(n.func, ast.Attribute) and isinstance(n.func.value, ast.Name) and n.func.value.id == t and n.func.attr in MUTATORS:
+                    unsafe = True
+                if isinstance(n, (ast.Subscript, ast.Attribute)) and isinstance(getattr(n, 'ctx', None), (ast.Store, ast.Del)) and isinstance(n.value, ast.Name) and n.value.id == t:
+                    unsafe = True
+                if isinstance(n, ast.AugAssign) and isinstance(n.target, ast.Name) and n.target.id == t:
                     unsafe = True
             if unsafe:
                 continue
@@ -399,6 +407,9 @@ def _find_helper_site(tree, helpers, ref_funcs):
     return None
 
 
+_INLINE_SEQ = 0
+
+
 def _inline_site(stmt, call, h, kind):
     params = [a.arg for a in h.args.posonlyargs + h.args.args]
     if h.args.vararg or h.args.kwarg or h.args.kwonlyargs:
@@ -445,6 +456,26 @@ def _inline_site(stmt, call, h, kind):
             return None
     wrapper = ast.Module(body=body, type_ignores=[])
     wrapper = _subst_params(wrapper, mapping)
+    # the helper's own locals get unique names at every inlining (no capture of the caller's names)
+    global _INLINE_SEQ
+    _INLINE_SEQ += 1
+    own = set()
+    comp_bound = set()
+    for n in ast.walk(wrapper):
+        if isinstance(n, ast.comprehension):
+            for y in ast.walk(n.target):
+                if isinstance(y, ast.Name):
+                    comp_bound.add(id(y))
+    for n in ast.walk(wrapper):
+        if isinstance(n, ast.Name) and isinstance(n.ctx, (ast.Store, ast.Del)) and id(n) not in comp_bound:
+            own.add(n.id)
+        elif isinstance(n, ast.ExceptHandler) and n.name:
+            own.add(n.name)
+    for n in ast.walk(wrapper):
+        if isinstance(n, ast.Name) and n.id in own:
+            n.id = '%s_inl%d' % (n.id, _INLINE_SEQ)
+        elif isinstance(n, ast.ExceptHandler) and n.name in own:
+            n.name = '%s_inl%d' % (n.name, _INLINE_SEQ)
 
     def conv(stmts):
         out = []
@@ -1169,7 +1200,7 @@ def rw_extract_temp(func, k):
     if Ctx.line_hash is None:
         return False
     names = Ctx.local_names(func)
-    have = Counter()
+    have = Counter(getattr(func, '_outside_have', {}))
     for owner, fld, blk in blocks_of(func):
         for st in blk:
             if isinstance(st, ast.Assign):
@@ -1203,10 +1234,43 @@ def rw_extract_temp(func, k):
                     h = Ctx.line_hash(probe, names | {'_xt_probe'}, func)
                     if h in Ctx.ref_hashes and have[h] < Ctx.ref_counter.get(h, 1):
                         sites.append((blk, st, e))
+    # every site may also be hoisted into the enclosing blocks (the temporary of the reference may live further out)
+    par = parents_of(func)
+    block_of = {}
+    for owner, fld, blk in blocks_of(func):
+        for st in blk:
+            block_of[id(st)] = blk
+    expanded = []
+    for blk, st, e in sites:
+        expanded.append((blk, st, e))
+        p = par.get(st)
+        hops = 0
+        while p is not None and p is not func and hops < 4:
+            if isinstance(p, ast.stmt) and id(p) in block_of and not isinstance(p, FuncDef + (ast.For, ast.While)):
+                expanded.append((block_of[id(p)], p, e))
+                hops += 1
+            elif isinstance(p, (ast.For, ast.While)):
+                break
+            elif isinstance(p, FuncDef) and id(p) in block_of:
+                # out of a closure: only if no operand of the expression is ever rebound or mutated in the enclosing function
+                roots_ = _roots(e)
+                clean = True
+                for n in ast.walk(func):
+                    if isinstance(n, (ast.Name, ast.Attribute, ast.Subscript)) and isinstance(getattr(n, 'ctx', None), (ast.Store, ast.Del)) and ast.unparse(n) in roots_ \
+                            and getattr(n, 'lineno', 0) > p.lineno:
+                        clean = False
+                    if isinstance(n, ast.Call) and isinstance(n.func, ast.Attribute) and n.func.attr in MUTATORS and ast.unparse(n.func.value) in roots_ and getattr(n, 'lineno', 0) > p.lineno:
+                        clean = False
+                if clean and _is_pure(e):
+                    expanded.append((block_of[id(p)], p, e))
+                    hops += 1
+                else:
+                    break
+            p = par.get(p)
+    sites = expanded
     if k >= len(sites):
         return False
     blk, st, e = sites[k]
-    par = parents_of(func)
     p = par.get(e)
     while p is not None and p is not st:
         if isinstance(p, (ast.Lambda, ast.ListComp, ast.SetComp, ast.DictComp, ast.GeneratorExp)):
@@ -1249,7 +1313,130 @@ def rw_extract_temp(func, k):
     return True
 
 
-GUIDED = [rw_extract_temp, rw_else_after_exit_wrap, rw_else_after_exit_unwrap, rw_comp_to_loop, rw_loop_to_comp, rw_not_compare, rw_demorgan, rw_swap_branches, rw_merge_nested_if, rw_split_and_if, rw_guard_to_swapped_else, rw_swapped_else_to_guard, rw_drop_tail_return, rw_add_tail_return, rw_element_to_index_loop, rw_fuse_loops, rw_late_publication, rw_drop_tail_continue, rw_items_loop, rw_filter_loop, rw_loop_to_update, rw_is_false, rw_hoist_common_tail, rw_sink_common_tail, rw_ifexp_to_if, rw_if_to_ifexp, rw_bool_to_if, rw_kwargs_default, rw_trailing_return, rw_enumerate, rw_return_temp]
+def rw_flatten_comp_filter(func, k):
+    """[E for x in [y for y in IT if C(y)]]    ->    [E for x in IT if C(x)]"""
+    sites = [g for n in ast.walk(func) if isinstance(n, (ast.ListComp, ast.SetComp, ast.GeneratorExp, ast.DictComp)) for g in n.generators
+             if isinstance(g.iter, (ast.ListComp, ast.GeneratorExp)) and len(g.iter.generators) == 1 and isinstance(g.iter.elt, ast.Name)
+             and isinstance(g.iter.generators[0].target, ast.Name) and g.iter.elt.id == g.iter.generators[0].target.id and isinstance(g.target, ast.Name)]
+    if k >= len(sites):
+        return False
+    g = sites[k]
+    inner = g.iter.generators[0]
+    y, x = inner.target.id, g.target.id
+    conds = []
+    for c in inner.ifs:
+        c2 = copy.deepcopy(c)
+        for n in ast.walk(c2):
+            if isinstance(n, ast.Name) and n.id == y:
+                n.id = x
+        conds.append(c2)
+    g.iter = inner.iter
+    g.ifs = conds + g.ifs
+    return True
+
+
+def rw_first_of_concat(func, k):
+    """(list(A) + B)[0]   ->   A[0]        (A is the non-empty list of data points)"""
+    sites = [n for n in ast.walk(func) if isinstance(n, ast.Subscript) and isinstance(n.slice, ast.Constant) and n.slice.value == 0 and isinstance(n.value, ast.BinOp)
+             and isinstance(n.value.op, ast.Add) and isinstance(n.value.left, ast.Call) and isinstance(n.value.left.func, ast.Name) and n.value.left.func.id == 'list' and len(n.value.left.args) == 1]
+    if k >= len(sites):
+        return False
+    n = sites[k]
+    n.value = n.value.left.args[0]
+    return True
+
+
+def rw_split_tuple_assign(func, k):
+    """a, b = (x, y)   ->   a = x ; b = y      (no target occurs in a later value)"""
+    sites = []
+    for owner, fld, blk in blocks_of(func):
+        for st in blk:
+            if isinstance(st, ast.Assign) and len(st.targets) == 1 and isinstance(st.targets[0], ast.Tuple) and isinstance(st.value, ast.Tuple) and len(st.targets[0].elts) == len(st.value.elts) \
+                    and all(isinstance(t, ast.Name) for t in st.targets[0].elts):
+                sites.append((blk, st))
+    if k >= len(sites):
+        return False
+    blk, st = sites[k]
+    tg = [t.id for t in st.targets[0].elts]
+    for i, v in enumerate(st.value.elts):
+        if any(isinstance(n, ast.Name) and n.id in tg[:i] for n in ast.walk(v)):
+            return True
+    new = [fix(ast.Assign(targets=[ast.Name(id=t.id, ctx=ast.Store())], value=v), st) for t, v in zip(st.targets[0].elts, st.value.elts)]
+    i = blk.index(st)
+    blk[i:i + 1] = new
+    return True
+
+
+def rw_augcomp_to_loop(func, k):
+    """L += [e for x in it if c]   ->   for x in it: if c: L.append(e)"""
+    sites = []
+    for owner, fld, blk in blocks_of(func):
+        for st in blk:
+            if isinstance(st, ast.AugAssign) and isinstance(st.op, ast.Add) and isinstance(st.target, ast.Name) and isinstance(st.value, ast.ListComp):
+                sites.append((blk, st))
+    if k >= len(sites):
+        return False
+    blk, st = sites[k]
+    comp = st.value
+    name = st.target.id
+    inner = [ast.Expr(value=ast.Call(func=ast.Attribute(value=ast.Name(id=name, ctx=ast.Load()), attr='append', ctx=ast.Load()), args=[comp.elt], keywords=[]))]
+    for g in reversed(comp.generators):
+        for c in reversed(g.ifs):
+            inner = [ast.If(test=c, body=inner, orelse=[])]
+        inner = [ast.For(target=g.target, iter=g.iter, body=inner, orelse=[])]
+    blk[blk.index(st)] = fix(inner[0], st)
+    return True
+
+
+def rw_len_zero(func, k):
+    """not L  <->  len(L) == 0     for a name that is bound to a list display / comprehension in this function"""
+    listy = set()
+    for n in ast.walk(func):
+        if isinstance(n, ast.Assign) and len(n.targets) == 1 and isinstance(n.targets[0], ast.Name) and isinstance(n.value, (ast.List, ast.ListComp)):
+            listy.add(n.targets[0].id)
+    sites = [n for n in ast.walk(func) if isinstance(n, ast.UnaryOp) and isinstance(n.op, ast.Not) and isinstance(n.operand, ast.Name) and n.operand.id in listy]
+    sites += [n for n in ast.walk(func) if isinstance(n, ast.Compare) and len(n.ops) == 1 and isinstance(n.ops[0], ast.Eq) and isinstance(n.comparators[0], ast.Constant) and n.comparators[0].value == 0
+              and isinstance(n.left, ast.Call) and isinstance(n.left.func, ast.Name) and n.left.func.id == 'len' and len(n.left.args) == 1 and isinstance(n.left.args[0], ast.Name) and n.left.args[0].id in listy]
+    if k >= len(sites):
+        return False
+    n = sites[k]
+    if isinstance(n, ast.UnaryOp):
+        new = ast.Compare(left=ast.Call(func=ast.Name(id='len', ctx=ast.Load()), args=[n.operand], keywords=[]), ops=[ast.Eq()], comparators=[ast.Constant(value=0)])
+    else:
+        new = ast.UnaryOp(op=ast.Not(), operand=n.left.args[0])
+    replace_node(func, n, fix(new, n))
+    return True
+
+
+def rw_bool_ifexp(func, k):
+    """c  ->  True if c else False     for an isinstance() call or comparison that is the element of a comprehension"""
+    sites = [n for n in ast.walk(func) if isinstance(n, (ast.ListComp, ast.GeneratorExp)) and (isinstance(n.elt, ast.Compare) or (isinstance(n.elt, ast.Call) and isinstance(n.elt.func, ast.Name) and n.elt.func.id == 'isinstance'))]
+    if k >= len(sites):
+        return False
+    n = sites[k]
+    n.elt = fix(ast.IfExp(test=n.elt, body=ast.Constant(value=True), orelse=ast.Constant(value=False)), n.elt)
+    return True
+
+
+def rw_singleton_comp(func, k):
+    """[E(x) for x in [A]]   ->   [E(A)]"""
+    sites = [n for n in ast.walk(func) if isinstance(n, ast.ListComp) and len(n.generators) == 1 and not n.generators[0].ifs and isinstance(n.generators[0].iter, ast.List)
+             and len(n.generators[0].iter.elts) == 1 and isinstance(n.generators[0].target, ast.Name)]
+    if k >= len(sites):
+        return False
+    n = sites[k]
+    x = n.generators[0].target.id
+    a = n.generators[0].iter.elts[0]
+    e = copy.deepcopy(n.elt)
+    holder = ast.Expression(body=e)
+    for y in list(ast.walk(holder)):
+        if isinstance(y, ast.Name) and y.id == x and isinstance(y.ctx, ast.Load):
+            replace_node(holder, y, copy.deepcopy(a))
+    replace_node(func, n, fix(ast.List(elts=[holder.body], ctx=ast.Load()), n))
+    return True
+
+
+GUIDED = [rw_extract_temp, rw_flatten_comp_filter, rw_first_of_concat, rw_split_tuple_assign, rw_augcomp_to_loop, rw_len_zero, rw_bool_ifexp, rw_singleton_comp, rw_else_after_exit_wrap, rw_else_after_exit_unwrap, rw_comp_to_loop, rw_loop_to_comp, rw_not_compare, rw_demorgan, rw_swap_branches, rw_merge_nested_if, rw_split_and_if, rw_guard_to_swapped_else, rw_swapped_else_to_guard, rw_drop_tail_return, rw_add_tail_return, rw_element_to_index_loop, rw_fuse_loops, rw_late_publication, rw_drop_tail_continue, rw_items_loop, rw_filter_loop, rw_loop_to_update, rw_is_false, rw_hoist_common_tail, rw_sink_common_tail, rw_ifexp_to_if, rw_if_to_ifexp, rw_bool_to_if, rw_kwargs_default, rw_trailing_return, rw_enumerate, rw_return_temp]
 
 
 def _clone(node):
@@ -1334,6 +1521,14 @@ def guided(func, score, max_rounds=30, budget=2500, dirty=None):
             shell.type_params = []
         shell._is_tail = b == n
         shell._names_extra = frozenset(Ctx.local_names(func)) if Ctx.local_names else frozenset()
+        if Ctx.line_hash is not None:
+            outside = Counter()
+            nm_ = Ctx.local_names(func)
+            for st_ in func.body[:a] + func.body[b:]:
+                for x_ in ast.walk(st_):
+                    if isinstance(x_, ast.Assign):
+                        outside[Ctx.line_hash(x_, nm_, func)] += 1
+            shell._outside_have = dict(outside)
         ap = _search(shell, score, max_rounds, budget)
         if ap:
             func.body[a:b] = shell.body
@@ -1380,3 +1575,110 @@ def renest_extracted(tree, outer, ref, differs, score_fn, note):
         if best is not None:
             f.body.insert(best[1], copy.deepcopy(h))
             note.append('%s: re-nested %s' % (q, h.name))
+
+
+def monotone_lines(func):
+    """after statements were moved or created: make line numbers non-decreasing in source order again (rules compare positions
+    by line number; reports keep pointing into the neighbourhood of the original statement)"""
+    state = {'cur': getattr(func, 'lineno', 1)}
+
+    def bump(node, lo):
+        for n in ast.walk(node):
+            if hasattr(n, 'lineno') and n.lineno < lo:
+                n.lineno = lo
+            if hasattr(n, 'end_lineno') and n.end_lineno is not None and n.end_lineno < getattr(n, 'lineno', lo):
+                n.end_lineno = n.lineno
+
+    def rec(stmts):
+        for s_ in stmts:
+            ln_ = getattr(s_, 'lineno', state['cur'])
+            lo = ln_ if ln_ >= state['cur'] else state['cur'] + 1
+            compound = any(isinstance(getattr(s_, f, None), list) and f in _BODY_FIELDS for f in s_._fields)
+            if not compound:
+                bump(s_, lo)
+                state['cur'] = max(state['cur'], max((getattr(n, 'lineno', lo) for n in ast.walk(s_)), default=lo))
+                continue
+            s_.lineno = lo
+            for f, v in ast.iter_fields(s_):
+                if f in _BODY_FIELDS:
+                    continue
+                if isinstance(v, ast.AST):
+                    bump(v, lo)
+                elif isinstance(v, list):
+                    for x in v:
+                        if isinstance(x, ast.AST):
+                            bump(x, lo)
+            state['cur'] = max(state['cur'], lo)
+            for f in ('body', 'orelse', 'finalbody'):
+                v = getattr(s_, f, None)
+                if isinstance(v, list) and v and isinstance(v[0], ast.stmt):
+                    rec(v)
+            for hd in getattr(s_, 'handlers', []) or []:
+                hd.lineno = max(getattr(hd, 'lineno', state['cur']), state['cur'])
+                rec(hd.body)
+            s_.end_lineno = max(getattr(s_, 'end_lineno', lo) or lo, state['cur'])
+    rec(func.body)
+
+
+def split_tuple_assigns(func):
+    n = 0
+    while rw_split_tuple_assign_safe(func):
+        n += 1
+        if n > 50:
+            break
+    return n
+
+
+def rw_split_tuple_assign_safe(func):
+    for owner, fld, blk in blocks_of(func):
+        for st in blk:
+            if isinstance(st, ast.Assign) and len(st.targets) == 1 and isinstance(st.targets[0], ast.Tuple) and isinstance(st.value, ast.Tuple) and len(st.targets[0].elts) == len(st.value.elts) \
+                    and all(isinstance(t, ast.Name) for t in st.targets[0].elts):
+                tg = [t.id for t in st.targets[0].elts]
+                if any(isinstance(n, ast.Name) and n.id in tg for v in st.value.elts for n in ast.walk(v)):
+                    continue
+                new = [fix(ast.Assign(targets=[ast.Name(id=t.id, ctx=ast.Store())], value=v), st) for t, v in zip(st.targets[0].elts, st.value.elts)]
+                i = blk.index(st)
+                blk[i:i + 1] = new
+                return True
+    return False
+
+
+def coalesce_copies(func, ref_locals, local_names):
+    """t = E ; ... ; x = t     (t a local the reference does not know, bound once, x neither read nor written in between, t not used
+    after the copy)      ->      x = E ; ... with every t renamed to x"""
+    done = []
+    changed = True
+    while changed:
+        changed = False
+        new = {x for x in local_names(func) - set(ref_locals)}
+        for owner, fld, blk in blocks_of(func):
+            for j, st in enumerate(blk):
+                if not (isinstance(st, ast.Assign) and len(st.targets) == 1 and isinstance(st.targets[0], ast.Name) and isinstance(st.value, ast.Name) and st.value.id in new):
+                    continue
+                t, x = st.value.id, st.targets[0].id
+                stores = [n for n in ast.walk(func) if isinstance(n, ast.Name) and n.id == t and isinstance(n.ctx, (ast.Store, ast.Del))]
+                if len(stores) != 1:
+                    continue
+                d = None
+                for i in range(j - 1, -1, -1):
+                    if isinstance(blk[i], ast.Assign) and len(blk[i].targets) == 1 and blk[i].targets[0] is stores[0]:
+                        d = i
+                        break
+                if d is None:
+                    continue
+                if any(isinstance(n, ast.Name) and n.id == x for s2 in blk[d:j] for n in ast.walk(s2)):
+                    continue
+                if any(isinstance(n, ast.Name) and n.id == t for s2 in blk[j + 1:] for n in ast.walk(s2)):
+                    continue
+                for s2 in blk[d:j]:
+                    for n in ast.walk(s2):
+                        if isinstance(n, ast.Name) and n.id == t:
+                            n.id = x
+                del blk[j]
+                done.append('%s->%s' % (t, x))
+                changed = True
+                break
+            if changed:
+                break
+    return done
